@@ -268,3 +268,96 @@ func init() {
 		Rule:   "16 one-element lemma jobs + 8 repeating opcodes x n unrolled runs; obligations: state, element count, access sequence, memory",
 	})
 }
+
+func init() {
+	register(&PropCheck{
+		ID:   "C12",
+		Dirs: []string{"z80"},
+		Jobs: func(tier string, seed int64) []Job {
+			jobs := stepJobs(allEncodings(), "VStep")
+			jobs = append(jobs, stepJobs(allEncodings(), "VC12NilIO")...)
+			mk := func(h, label string, ps ...int) {
+				jobs = append(jobs, Job{Dir: "z80", Harness: h, Params: ps, Label: h + "/" + label, MaxForks: 2048, MaxPaths: 20000})
+			}
+			type dd struct{ d0, d1 int }
+			pins := []dd{{0x00, -1}, {0xc7, -1}, {0xff, -1}, {0xcd, -1}, {0x21, -1}, {0x36, -1}, {0x76, -1}, {0xd3, -1}, {0xdb, -1}, {0xe3, -1}, {0x10, -1}, {0xc9, -1},
+				{0xed, 0x46}, {0xed, 0xb0}, {0xed, 0x45}, {0xed, 0x00}, {0xdd, 0x21}, {0xdd, 0x36}, {0xdd, 0xcb}, {0xfd, 0xcb}, {0xdd, 0xdd}, {0xcb, 0x06}, {0xfd, 0xe9}}
+			mk("VC12Req", "n0", 0, -1, -1)
+			mk("VC12ReqTop", "n0", 0, -1)
+			for n := 1; n <= 4; n++ {
+				for _, p := range pins {
+					mk("VC12Req", fmt.Sprintf("n%d/%02x.%d", n, p.d0, p.d1), n, p.d0, p.d1)
+				}
+				for _, d0 := range []int{0xc7, 0xcd, 0xdd, 0xed, 0x36} {
+					mk("VC12ReqTop", fmt.Sprintf("n%d/%02x", n, d0), n, d0)
+				}
+				if tier == "thorough" {
+					mk("VC12Req", fmt.Sprintf("n%d/any", n), n, -1, -1)
+				}
+			}
+			encs := reprEncs()
+			if tier == "thorough" {
+				encs = allEncodings()
+			}
+			jobs = append(jobs, stepJobs(encs, "VC12Dumb")...)
+			for k := 0; k <= 3; k++ {
+				jobs = append(jobs, stepJobs(encs, "VC12DumbCut", k)...)
+			}
+			jobs = append(jobs, stepJobs(encs, "VC12Map")...)
+			return jobs
+		},
+		Only: func(job Job, a string) bool {
+			if job.Harness == "VStep" {
+				if a == "nopanic" {
+					return true
+				}
+				// unsupported encodings are consumed: PC past the fetched bytes, R advanced, nothing else
+				return classify(Enc{job.Params[0], job.Params[1]}) == "invalid" && !inSet(a, "rmw-order")
+			}
+			return true
+		},
+		Post: func(c *CheckCtx) {
+			loops := map[string]bool{}
+			panics := 0
+			for _, jr := range c.Results {
+				panics += jr.PanicPaths
+				for f := range jr.LoopFuncs {
+					if isHarnessFunc(f) {
+						continue
+					}
+					loops[f] = true
+				}
+			}
+			c.Extra["functions_with_back_edge_taken"] = sortedKeys(loops)
+			for f := range loops {
+				c.structural("loop/"+f, "a CFG back edge is taken inside "+f+" during Step: termination is no longer structural")
+			}
+			if cyc := stepCallCycle(c.L); cyc != "" {
+				c.structural("recursion/"+cyc, "the static call graph below CPU.Step has a cycle through "+cyc)
+			}
+			c.Extra["step_call_graph_acyclic"] = stepCallCycle(c.L) == ""
+		},
+		Bounds: map[string]interface{}{"steps": 1, "encodings": "all 1786 with the ideal bus and with IO == nil; requests: Type and IM arbitrary ints, IFF1 arbitrary, len(Data) 0..4, PC anywhere and PC = 0xFFFF; quick pins the first one or two supplied bytes to 23 opcode/prefix choices, thorough leaves them symbolic", "short_memories": "DumbMemory of symbolic length 0..65536 and DumbIO 0..256, MapMemory with <= 3 arbitrary entries: quick 16 encodings, thorough all"},
+		Assume: []string{"Memory non-nil (documented precondition)", "MapMemory initialised (non-nil map)", "liveness of arbitrary programs under Run is outside: Run returns in the iteration in which Step sets HALT (C08)", "log.Printf does not panic"},
+		Stubs:  stepStubs,
+		Rule:   "every implicit/explicit panic site reached on an explored path is an obligation (index, slice bounds, nil dereference, nil map write, type assertion, division, panic); plus 'consumed' obligations for the 856 unsupported encodings; plus structural: no back edge taken, acyclic call graph",
+	})
+}
+
+func init() {
+	register(&PropCheck{
+		ID:   "C16",
+		Dirs: []string{"z80"},
+		Jobs: func(tier string, seed int64) []Job {
+			var jobs []Job
+			for _, h := range []string{"VC16Flags", "VC16Consts", "VC16Reg"} {
+				jobs = append(jobs, Job{Dir: "z80", Harness: h, Label: h})
+			}
+			return jobs
+		},
+		Bounds:  map[string]interface{}{"domain": "complete: all 256 masks x all F x all of GPR; all 65536 register values; the eight exported constants"},
+		Assume:  []string{},
+		Rule:    "three harnesses over GetFlag/SetFlag/ResetFlag, the flag constants and Register.U16/SetU16 with every input symbolic",
+		Exhaust: true,
+	})
+}
